@@ -39,6 +39,7 @@ ID9 = ident("ident9", 0xF108, [dict(kind="value", name="m", dop=dict(
     complex="mux", bytepos=1, key_dop={"dt": "A_UINT32", "bl": 8}, cases=[
         dict(name="c1", lo=1, hi=1, structure=dict(params=[V("code")])),
         dict(name="c2", lo=2, hi=9, structure=dict(params=[V("other")]))]))])
+ID7A = ident("ident7a", 0xF1B6, [dict(kind="value", name="txt1", dop={"dt": "A_ASCIISTRING", "bl": 8})])
 NEGR = rq(C("sid", 0x7F), MR("rsid"), V("nrc"))
 
 
@@ -99,6 +100,17 @@ CANDIDATES = {
         variant("v1", [[mp("7", "ident3", None, "st.a"), mp("ABCD", "ident3", None, "st.serial")]]),
         variant("v2", [[mp("ABCD", "ident3", None, "st.serial"), mp("9", "ident3", None, "st.a")]]),
         variant("v3", [[mp("ABCD", "ident3", None, "st.serial")]])],
+    # the value sits in the service's own NEG-RESPONSE (no global negative response)
+    "param-in-negative-response": [
+        variant("v1", [[mp("17", "ident1n", "nrc")]],
+                services=(dict(ID1, name="ident1n", neg=[NEGR]), ID2)),
+        variant("v2", [[mp("5", "ident1n", "v")]],
+                services=(dict(ID1, name="ident1n", neg=[NEGR]), ID2))],
+    # expected values with blanks, read from ODX text (the blanks belong to the value)
+    "string-with-blanks": [variant("v1", [[dict(mp("A ", "ident7", "txt"), xml=True)]]),
+                           variant("v2", [[dict(mp("A", "ident7a", "txt1"), xml=True)]],
+                                   services=(ID1, ID2, ID3, ID4, ID5, ID6, ID7, ID8, ID9, ID7A)),
+                           variant("v3", [[dict(mp(" A", "ident7", "txt"), xml=True)]])],
     "shared-and-distinct": [variant("v1", [[mp("1", "ident1", "v"), mp("2", "ident2", "w")]]),
                             variant("v2", [[mp("1", "ident1", "v"), mp("3", "ident2", "w")]]),
                             variant("v3", [[mp("4", "ident2", "w")]])],
@@ -117,6 +129,15 @@ def build_candidates(cfg):
     shared = {}  # pattern / parameter objects are shared where the catalogue shares its lists
 
     def _mp(m):
+        if id(m) not in shared and m.get("xml"):
+            from xml.etree import ElementTree
+            from xml.sax.saxutils import escape
+            from catalogue.build import FRAGS
+            out = f'<OUT-PARAM-IF-SNREF SHORT-NAME="{m["snref"]}"/>' if m["snref"] else \
+                f'<OUT-PARAM-IF-SNPATHREF SHORT-NAME-PATH="{m["path"]}"/>'
+            shared[id(m)] = MatchingParameter.from_et(ElementTree.fromstring(
+                f'<MATCHING-PARAMETER><EXPECTED-VALUE>{escape(m["expected"])}</EXPECTED-VALUE>'
+                f'<DIAG-COMM-SNREF SHORT-NAME="{m["service"]}"/>{out}</MATCHING-PARAMETER>'), FRAGS)
         if id(m) not in shared:
             shared[id(m)] = MatchingParameter(
                 expected_value=m["expected"], diag_comm_snref=m["service"],
